@@ -3,7 +3,7 @@
    ExtrOcamlString (ascii -> char, string -> char list).  No Extract Constant of our own. *)
 From Coq Require Import Extraction ExtrOcamlBasic ExtrOcamlString.
 From Ucg Require Import base.Bytes data.Val prec.Climb env.Collector env.Out data.Json data.MapJson data.B64 path.Path sem.Ast sem.Sem sem.FloatInst shell.Shell lex.Lex_Types lex.Vocab lex.Lex vm.Ops vm.Translate vm.Vm vm.Compile_Rel vm.Compile_Correct.
-From Ucg Require Import env.Import env.Batch lsp.Docs shape.Shape data.Xml print.Print.
+From Ucg Require Import env.Import env.Batch lsp.Docs shape.Shape data.Xml print.Print pos.PAst pos.PTranslate pos.PTemplate.
 From UcgGen Require Import PrecTable DocPrecTable.
 
 Extraction Language OCaml.
@@ -43,8 +43,8 @@ Extraction "model_batch.ml" batch_current batch_legacy exit_status default_fuel 
 
 (* C20: the document store; the "analysis" returns its own input (the workspace view) so that the harness can check that the
    real diagnostics are a function of it *)
-Definition lsp_run (disk : store) (ms : list msg) : state * list (uri * option store) :=
-  Docs.run (option store) (fun w _ _ => Some w) None disk (Docs.init disk) ms.
+Definition lsp_run (disk : Docs.store) (ms : list Docs.msg) : Docs.state * list (Docs.uri * option Docs.store) :=
+  Docs.run (option Docs.store) (fun w _ _ => Some w) None disk (Docs.init disk) ms.
 Extraction "model_lsp.ml" lsp_run.
 
 (* C06 / C07: shape narrowing, the static checker and constraint checking (floats as bit patterns) *)
@@ -70,3 +70,6 @@ Extraction "model_xml.ml" to_xml_r to_xml xml_emit_r xml_emit xml_output xml_par
 
 (* C05: the AST printer (byte-exact for comment-free programs), the comment map of the tokenizer and the comment scheduler *)
 Extraction "model_print.ml" pp_stmts f64_display float_text render_with_comments run_render comment_line is_bareword comment_map_of.
+
+(* C17: the positioned translator and the template scanner *)
+Extraction "model_pos.ml" ptranslate erase_stmt translate src_positions_of_stmt tpl_positions_of_stmt shift_stmt tpl_placedb tpl_startsb tpl_scan.
